@@ -26,7 +26,10 @@ def run(prop, spec, units, seed):
         if not any(prop in d["props"] and (lab == pref or lab.startswith(pref)) for u in units for lab, d in u.labels.items()):
             continue
         for w in ws:
-            w2 = dict(w); w2.setdefault("sweep", (1, 200))
+            w2 = dict(w)
+            # a `contains` witness pins a piece of output text, which depends on the layout: it is used at the widths it was written for;
+            # every other oracle is independent of the layout and is swept over all widths
+            if w.get("kind") != "cli" and w.get("oracle", "tree") != "contains": w2.setdefault("sweep", (1, 200))
             v, j = replay.run_witness(w2)
             n += 1
             if v:
